@@ -369,9 +369,10 @@ reg('C04', 'model_checking',
     'real particles only, accelerations by the reference interpreter). In '
     'addition a grammar of generated integrators (1-5 stages x '
     'initialize/no initialize x 4 acceleration placement patterns incl. '
-    'update_nnps=False and second equation set x update_domain) x three '
+    'update_nnps=False and second equation set x update_domain) x four '
     'stepper wirings (different classes, same class with different '
-    'attributes, py_stage hooks, arrays without stepper) is run for three '
+    'attributes, py_stage hooks incl. one that adds particles, arrays '
+    'without stepper) is run for three '
     'steps starting at t=0.5 in a periodic domain with non-commutative '
     'trace steppers; particle state after every step and the post-stage '
     'callback log must agree bit for bit.',
@@ -445,7 +446,7 @@ reg('C12', 'exploration',
 reg('C14', 'model_checking',
     'Breadth-first search over histories of Interpolator interface calls '
     '(interpolate of several properties, set_interpolation_points, '
-    'update, update_particle_arrays with fresh arrays, move sources; depth '
+    'update, update_particle_arrays with fresh arrays, move sources, grow the smoothing lengths in place; depth '
     '2 quick / 3 thorough) for 5 methods x 9 kernel/dim pairs x one/two '
     'source arrays x non-periodic/periodic domain; after every call the '
     'values (and for order1 the gradient) at every target are compared '
